@@ -1,6 +1,6 @@
 """Which rules exist, which properties are claimed, their floors and evidence texts."""
 
-RULE_MODULES = ['descent', 'null', 'live', 'gate', 'alloc', 'immobile', 'reset', 'pool', 'stale', 'layer', 'twin', 'listsearch', 'steps', 'segflow']
+RULE_MODULES = ['descent', 'null', 'live', 'gate', 'alloc', 'immobile', 'reset', 'pool', 'stale', 'layer', 'twin', 'listsearch', 'steps', 'segflow', 'unchecked', 'panicsite']
 
 # rules whose instance set legitimately differs between debug and release-like MIR
 CONFIG_DEPENDENT_RULES = {'PANICSITE'}
@@ -102,10 +102,14 @@ accessor (node/node_mut = get_unchecked) in the three tree modules and the expor
 != EMPTY_REF by a dominating test, by provenance (allocator result, constant) or by one of 12 reasoned shape-invariant
 exceptions (DESIGN section 4, NULL) [NULL]; every index that reaches an accessor or a tree function comes from the
 tree (root, a link), the allocator, the sentinel constant or a caller's handle, never from a computed slot number
-[PROVENANCE]; no index is used after the removal that may have freed or re-labelled its slot [STALE]. Not decided: termination of the repair recursion, arithmetic in the seg
+[PROVENANCE]; no index is used after the removal that may have freed or re-labelled its slot [STALE]; every
+get_unchecked outside the arena accessors is bounded (list positions come from Ok(i) / Err(i)-1 under i>0 of a search on
+the same vector or are caller handles; segment-tree indices are guarded by a length check that nothing invalidates, or
+are bits of a layout mask) [UNCHECKED]; every integer + - * << >>, checked indexing, unwrap and explicit panic is
+discharged by a dominating guard / recognised idiom or by a reasoned table entry [PANICSITE]. Not decided: termination of the repair recursion, arithmetic in the seg
 layout (C14).""",
      ["C02 for the reasoned exceptions (inner child of a rotated node, sibling of a double-black node, non-root has a parent)"],
-     {'NULL': 190, 'PROVENANCE': 150, 'STALE': 20})
+     {'NULL': 190, 'PROVENANCE': 150, 'STALE': 20, 'UNCHECKED': 14, 'PANICSITE': 60})
 
 prop('C13', """
 Static analysis (MIR/SSA). Decided clauses so far for the expiring-key list: the purge keeps exactly
